@@ -66,13 +66,19 @@ Proof.
 Qed.
 
 Theorem C07_empty_matrix :
-  forall (T : Type) (le lt : T -> T -> bool) (vmax smax : T -> T -> T) (ninf : T) (a : arm) (t : T),
-  dispatch_argmax_f32 le lt ninf a 0 [] = Ok None /\
+  forall (T : Type) (le lt : T -> T -> bool) (vmax smax : T -> T -> T) (ninf : T) (a : arm) (t : T)
+         (max_index : N), index_fits32 max_index ->
+  dispatch_argmax_f32 le lt ninf a max_index [] = Ok None /\
   dispatch_max_f32 le vmax smax a [] = Ok None /\
   dispatch_threshold le a [] t = [] /\
   dispatch_argmax_u8 a [] = Ok None /\ dispatch_max_u8 a [] = Ok None /\
   lin_max le [] = Ok None /\ lin_argmax le [] = Ok None.
-Proof. intros. destruct a; repeat split; reflexivity. Qed.
+Proof.
+  intros T le lt vmax smax ninf a t mi Hi.
+  assert (E : (4294967295 <? mi)%N = false) by (apply N.ltb_ge; exact Hi).
+  destruct a; cbn [dispatch_argmax_f32]; unfold argmax_sse2, argmax_f32_avx2; rewrite ?E;
+    repeat split; reflexivity.
+Qed.
 
 (* ================= the vector kernels equal their specifications ================= *)
 
@@ -240,6 +246,13 @@ Theorem C07_striped_threshold :
   forall i, In i (ss_threshold le m t) <->
     exists r c v, r < length m /\ c < C /\ i = c * length m + r /\ get m r c = Ok v /\ le t v = true.
 Proof. intros T le C m t. exact (ss_threshold_ok le C m t). Qed.
+
+(* ... that is: exactly the positions i below rows * C with scores[i] >= t *)
+Theorem C07_striped_threshold_index :
+  forall (T : Type) (le : T -> T -> bool) (C : nat) (m : list (list T)) (t : T), wf C m ->
+  forall i, In i (ss_threshold le m t) <->
+            i < length m * C /\ exists v, index_usize m i = Ok v /\ le t v = true.
+Proof. intros T le C m t. exact (ss_threshold_index le C m t). Qed.
 
 (* the offsets as binary numbers (the form evaluated by the extracted driver) are the same *)
 Theorem C07_striped_offsets_N :
@@ -479,12 +492,6 @@ Definition neg0_25 := f32b 3196059648.
    family of the two repaired AVX2 defects (max_f32 started from 0.0; argmax_u8 lanes) *)
 Definition ex_row (v : F32.t) (c : nat) : list F32.t := repeat neg7_5 c ++ v :: repeat neg7_5 (31 - c).
 Definition ex_m : list (list F32.t) := [ex_row neg1 3; ex_row neg0_25 17; repeat neg7_5 32].
-
-Lemma forallb_Forall {A} (p : A -> bool) (P : A -> Prop) (l : list A) :
-  (forall x, p x = true -> P x) -> forallb p l = true -> Forall P l.
-Proof.
-  intros Hp H. apply Forall_forall. intros x Hx. apply Hp. rewrite forallb_forall in H. auto.
-Qed.
 
 Example C07_hypotheses_satisfiable :
   wf 32 ex_m /\ all_good f32_good ex_m /\ rows_fit32 ex_m /\ index_fits32 96.
